@@ -231,7 +231,17 @@ func marshalDocSections(secs []DocumentSection) []byte {
 
 func unmarshalDocSections(data []byte, ds []DocumentSection) []DocumentSection {
 	sz, m := binary.Uvarint(data)
+	if m <= 0 {
+		// Truncated or overlong varint: the data is corrupt.
+		return ds[:0]
+	}
 	data = data[m:]
+
+	// Every encoded value takes at least one byte, so a larger size can only
+	// come from corrupt data. Don't let it drive the allocation.
+	if sz > uint64(len(data)) {
+		sz = uint64(len(data))
+	}
 
 	if cap(ds) < int(sz)/2 {
 		ds = make([]DocumentSection, 0, sz/2)
@@ -246,11 +256,17 @@ func unmarshalDocSections(data []byte, ds []DocumentSection) []DocumentSection {
 		var d DocumentSection
 
 		delta, m := binary.Uvarint(data)
+		if m <= 0 {
+			break
+		}
 		last += uint32(delta)
 		data = data[m:]
 		d.Start = last
 
 		delta, m = binary.Uvarint(data)
+		if m <= 0 {
+			break
+		}
 		last += uint32(delta)
 		data = data[m:]
 		d.End = last
@@ -293,7 +309,17 @@ func toSizedDeltas(offsets []uint32) []byte {
 
 func fromSizedDeltas(data []byte, ps []uint32) []uint32 {
 	sz, m := binary.Uvarint(data)
+	if m <= 0 {
+		// Truncated or overlong varint: the data is corrupt.
+		return ps[:0]
+	}
 	data = data[m:]
+
+	// Every encoded value takes at least one byte, so a larger size can only
+	// come from corrupt data. Don't let it drive the allocation.
+	if sz > uint64(len(data)) {
+		sz = uint64(len(data))
+	}
 
 	if cap(ps) < int(sz) {
 		ps = make([]uint32, 0, sz)
@@ -304,6 +330,11 @@ func fromSizedDeltas(data []byte, ps []uint32) []uint32 {
 	var last uint32
 	for len(data) > 0 {
 		delta, m := binary.Uvarint(data)
+		if m <= 0 {
+			// Truncated or overlong varint: stop instead of looping without
+			// progress (m == 0) or slicing with a negative index (m < 0).
+			break
+		}
 		offset := last + uint32(delta)
 		last = offset
 		data = data[m:]
@@ -333,7 +364,17 @@ func toSizedDeltas16(offsets []uint16) []byte {
 
 func fromSizedDeltas16(data []byte, ps []uint16) []uint16 {
 	sz, m := binary.Uvarint(data)
+	if m <= 0 {
+		// Truncated or overlong varint: the data is corrupt.
+		return ps[:0]
+	}
 	data = data[m:]
+
+	// Every encoded value takes at least one byte, so a larger size can only
+	// come from corrupt data. Don't let it drive the allocation.
+	if sz > uint64(len(data)) {
+		sz = uint64(len(data))
+	}
 
 	if cap(ps) < int(sz) {
 		ps = make([]uint16, 0, sz)
@@ -344,6 +385,9 @@ func fromSizedDeltas16(data []byte, ps []uint16) []uint16 {
 	var last uint16
 	for len(data) > 0 {
 		delta, m := binary.Uvarint(data)
+		if m <= 0 {
+			break
+		}
 		offset := last + uint16(delta)
 		last = offset
 		data = data[m:]
@@ -361,6 +405,11 @@ func fromDeltas(data []byte, buf []uint32) []uint32 {
 	var last uint32
 	for len(data) > 0 {
 		delta, m := binary.Uvarint(data)
+		if m <= 0 {
+			// Truncated or overlong varint: stop instead of looping without
+			// progress (m == 0) or slicing with a negative index (m < 0).
+			break
+		}
 		offset := last + uint32(delta)
 		last = offset
 		data = data[m:]
